@@ -6,10 +6,11 @@ C07 — kernel-checked concrete facts next to the theorems.
    `FastAbs` resolves against the working directory — a hide rule that is a path never hid a
    listing entry.  `listing_omits_hidden_full_fails` shows the clause is not vacuous: the old
    filter violates it, the current one (`listingNames`) does not, on the same input.
-2. *The residual hypothesis of `Props.listing_omits_hidden` is needed.*  The fixed filter builds
-   the entry's path from the request URL; when the listed directory was reached through an index
-   name that is itself a directory, URL and directory differ and a path rule is still missed
-   (`listing_hypothesis_needed`, replayed on the implementation on every run).
+2. *The filter of cfacd08.*  It built the entry's path from the request URL (`listingNamesUrl`);
+   when the listed directory was reached through an index name that is itself a directory, URL
+   and directory differ and a path rule was still missed
+   (`listing_omits_hidden_old_code_fails`).  The current filter joins the listed directory with
+   the entry name.
 3. *Glob syntax from the request* (a model fact, not a C07 violation: the match stays below the
    root).  `globSafeRepl` escapes `*`, `[`, `?` but not `\`, so the request `/\*` becomes the
    pattern `/\\*` (escaped backslash, live star).
@@ -26,7 +27,7 @@ def wFS : FS := fun n =>
   else .missing
 
 /-- root `/srv`, hide `/srv/secret.txt`, browse on -/
-def wCfg : Cfg := ⟨str "/w", str "/srv", [str "/srv/secret.txt"], [], true, false, true⟩
+def wCfg : Cfg := ⟨str "/w", str "/srv", [str "/srv/secret.txt"], [], true, false, true, [], []⟩
 
 /-- the file itself is refused … -/
 theorem witness_file_is_hidden : (serve wFS wCfg (str "/secret.txt") (str "/secret.txt")).1 = .notFound := by decide
@@ -50,16 +51,19 @@ def wFS2 : FS := fun n =>
   else .missing
 
 /-- root `/srv`, index name `sub`, hide `/srv/sub/secret.txt`, browse on -/
-def wCfg2 : Cfg := ⟨str "/w", str "/srv", [str "/srv/sub/secret.txt"], [str "sub"], true, false, true⟩
+def wCfg2 : Cfg := ⟨str "/w", str "/srv", [str "/srv/sub/secret.txt"], [str "sub"], true, false, true, [], []⟩
 
-/-- without `dir = requestFile c path` the listing clause fails: `GET /` lists `/srv/sub` (the
-    index name is a directory) and shows `secret.txt`, whose path is hidden -/
-theorem listing_hypothesis_needed :
-    ∃ (fs : FS) (c : Cfg) (path orig dir : Bytes) (names : List Bytes) (es : List Entry) (e : Entry),
-      fs [] = .missing ∧ (serve fs c path orig).1 = .listing dir names ∧ fs dir = .dir es ∧ e ∈ es ∧
-      Normal e.name ∧ showEntry e ∈ names ∧ entryHiddenByPath c dir e = true ∧ dir ≠ requestFile c path :=
-  ⟨wFS2, wCfg2, str "/", str "/", str "/srv/sub", [str "a.txt", str "secret.txt"],
-    [⟨str "a.txt", false⟩, ⟨str "secret.txt", false⟩], ⟨str "secret.txt", false⟩, by decide⟩
+/-- the filter of cfacd08 on `GET /`, which lists `/srv/sub` (the index name is a directory):
+    it shows `secret.txt`, whose path is hidden -/
+theorem listing_omits_hidden_old_code_fails :
+    ∃ (c : Cfg) (path dir : Bytes) (es : List Entry) (e : Entry),
+      e ∈ es ∧ showEntry e ∈ listingNamesUrl c path es ∧ entryHiddenByPath c dir e = true :=
+  ⟨wCfg2, str "/", str "/srv/sub", [⟨str "a.txt", false⟩, ⟨str "secret.txt", false⟩],
+    ⟨str "secret.txt", false⟩, by decide⟩
+
+/-- the current filter omits it -/
+theorem witness_index_dir_listing_now_filtered :
+    (serve wFS2 wCfg2 (str "/") (str "/")).1 = .listing (str "/srv/sub") [str "a.txt"] := by decide
 
 /-- request `/\*`: the escaped pattern still matches a different name -/
 theorem glob_from_request_full_fails :
